@@ -106,6 +106,7 @@ def drop_impls(s, file, log):
 
 def r1_visibility(s, file, log):
     s = _sub(s, r'pub\((super|crate)\)', 'pub', 'R1:pub', file, log)
+    s = _sub(s, r'(?m)^struct\b', 'pub struct', 'R1:struct', file, log)
     # private struct fields -> pub
     m = rp.mask(s)
     out = s
